@@ -51,7 +51,10 @@ var opNames = []string{"fetch", "publish", "put-fresh", "put-older", "put-base-e
 	// location / the first advertised plain-HTTP delta location serves a list
 	// whose next-update has passed. Fetching is not judging: it is downloaded,
 	// returned and written to the cache like any other
-	"stale-base", "stale-first-delta"}
+	"stale-base", "stale-first-delta",
+	// the cache holds a current base next to a delta that carries no next-update
+	// (the field is OPTIONAL in a TBSCertList): "next-update-less" like the base
+	"put-delta-no-nextupdate"}
 
 var faultKinds = []string{"error", "404", "garbage", "non-crl-der"}
 
@@ -467,6 +470,8 @@ func step(w *world, m *model, idx, op int) (string, string) {
 		put(w.version, "fresh", "expired")
 	case "put-no-nextupdate":
 		put(w.version, "nonext", "fresh")
+	case "put-delta-no-nextupdate":
+		put(w.version, "fresh", "nonext")
 	case "arm-get":
 		if w.c.Cache {
 			w.cache.GetErr = 1
